@@ -217,7 +217,9 @@ func init() {
 		if err != nil {
 			return map[string]interface{}{"err": err.Error()}
 		}
-		return map[string]interface{}{"enc": hx(b)}
+		out := map[string]interface{}{"enc": hx(b)}
+		retain(out, "ngapenc", b)
+		return out
 	}
 	lineCmds["ngapdec"] = func(in map[string]interface{}) map[string]interface{} {
 		root, _ := ngapRootOf(in)
